@@ -284,18 +284,25 @@ pub fn run_l2(cfg: &Cfg, prop: L2) -> i32 {
             if prop == L2::C03 && step > 0 {
                 let installed: Vec<String> = managed.keys().filter(|n| eph.policies.contains_key(*n)).cloned().collect();
                 if !installed.is_empty() {
-                    let victim = installed[r.below(installed.len())].clone();
+                    let mut victims = installed.clone();
+                    r.shuffle(&mut victims);
+                    // one or several policies share the SAME failing expression (e.g. the -in and
+                    // -out policies of one customer): a failure must not be remembered as "empty"
+                    victims.truncate(r.range(1, 3.min(victims.len())));
                     let text = match r.below(3) {
                         0 => "AS-DOES-NOT-EXIST".to_string(),
                         1 => failing_set.clone().unwrap_or_else(|| "AS-DOES-NOT-EXIST".into()),
                         _ => {
                             irr_down = true;
-                            managed[&victim].0.clone()
+                            String::new()
                         }
                     };
                     if !irr_down {
-                        managed.insert(victim.clone(), (text, None));
-                        failing.insert(victim);
+                        for v in &victims {
+                            let t = if r.chance(1, 3) { format!("{text} OR {text}") } else { text.clone() };
+                            managed.insert(v.clone(), (t, None));
+                            failing.insert(v.clone());
+                        }
                     } else {
                         failing.extend(managed.keys().cloned());
                     }
@@ -525,9 +532,9 @@ pub fn run_c20_agent(cfg: &Cfg) -> i32 {
     let dir = crate::peers::fixtures().join("pki");
     let public: Vec<Vec<u8>> = ["ca.crt", "other-ca.crt", "server.crt", "client.crt", "client-rsa.crt"].iter().map(|c| secrets::pem_der(&std::fs::read(dir.join(c)).unwrap_or_default())).collect();
     let directives = ["", "trace", "debug", "netconf=trace", "bgpfu_junos_agent=trace,rustls=trace,tokio_rustls=trace", "info,netconf::transport=trace"];
-    let outcomes = ["success", "untrusted-ca", "paths-swapped", "peer-drops"];
+    let outcomes = ["success", "untrusted-ca", "paths-swapped", "peer-drops", "cert-bundle-with-key", "ca-bundle-with-key", "key-file-with-trailing-copy"];
     let keys = [("client.key", "client.crt"), ("client.sec1.key", "client.crt"), ("client-rsa.key", "client-rsa.crt"), ("client-rsa.pkcs1.key", "client-rsa.crt")];
-    let n = cfg.count(24, 400);
+    let n = cfg.count(35, 420);
     for i in 0..n {
         let idx = cfg.case_index(i);
         let mut r = cfg.prng("C20-agent", idx);
@@ -539,7 +546,20 @@ pub fn run_c20_agent(cfg: &Cfg) -> i32 {
         let logfile = std::env::temp_dir().join(format!("vh-agent-log-{}-{idx}.log", std::process::id()));
         let managed = vec![("fltr-0".to_string(), "AS65000".to_string())];
         let script = Script { running: e2e::running_config(&managed), faults: vec![], fail_connections: vec![outcome == "peer-drops"], ephemeral_name: "bgpfu".into() };
+        // unusual but plausible file layouts: bundles that contain the private key
+        let bundle = std::env::temp_dir().join(format!("vh-bundle-{}-{idx}.pem", std::process::id()));
+        let cat = |files: &[&str]| -> String {
+            let mut v = Vec::new();
+            for f in files {
+                v.extend(std::fs::read(dir.join(f)).unwrap_or_default());
+            }
+            let _ = std::fs::write(&bundle, v);
+            bundle.to_string_lossy().into_owned()
+        };
         let (ca, cert_path, key_path) = match outcome {
+            "cert-bundle-with-key" => (e2e::pki("ca.crt"), cat(&[cert, key]), e2e::pki(key)),
+            "ca-bundle-with-key" => (cat(&["ca.crt", key]), e2e::pki(cert), e2e::pki(key)),
+            "key-file-with-trailing-copy" => (e2e::pki("ca.crt"), e2e::pki(cert), cat(&[key, key])),
             "untrusted-ca" => (e2e::pki("other-ca.crt"), e2e::pki(cert), e2e::pki(key)),
             "paths-swapped" => (e2e::pki("ca.crt"), e2e::pki(key), e2e::pki(cert)),
             _ => (e2e::pki("ca.crt"), e2e::pki(cert), e2e::pki(key)),
@@ -563,6 +583,7 @@ pub fn run_c20_agent(cfg: &Cfg) -> i32 {
             j.stop();
             out
         });
+        let _ = std::fs::remove_file(&bundle);
         let Ok(Ok(out)) = run else {
             rep.inconclusive(&format!("case {idx}"), "agent did not finish");
             continue;
@@ -723,15 +744,19 @@ pub fn run_c19(cfg: &Cfg) -> i32 {
         name: &'static str,
     }
     let mut scs: Vec<Sc> = vec![
-        Sc { period: 300, outcomes: vec![false, false, false, true, false], signals: vec![], end: 60.0 + 120.0 + 240.0 + 300.0 + 60.0 + 30.0, name: "p300:FFFSF" },
+        // enough consecutive failures for the doubling to reach (and have to respect) the cap
+        Sc { period: 300, outcomes: vec![false, false, false, false, false, true, false], signals: vec![], end: 60.0 + 120.0 + 240.0 + 300.0 + 300.0 + 300.0 + 60.0 + 30.0, name: "p300:FFFFFSF" },
+        Sc { period: 90, outcomes: vec![false, false, false, true, false], signals: vec![], end: 60.0 + 90.0 + 90.0 + 90.0 + 60.0 + 30.0, name: "p90:FFFSF" },
         Sc { period: 300, outcomes: vec![true, true], signals: vec![(100.0, libc::SIGHUP), (250.0, libc::SIGTERM)], end: 400.0, name: "p300:S+SIGHUP@100+SIGTERM@250" },
         Sc { period: 0, outcomes: vec![true], signals: vec![], end: 200.0, name: "p0:one-shot" },
     ];
     if cfg.thorough() {
-        for (period, name) in [(30u64, "p30:FFFSF"), (60, "p60:FFFSF"), (90, "p90:FFFFSF"), (3600, "p3600:FFFFFFF")] {
+        for (period, name) in [(30u64, "p30:FFFSF"), (60, "p60:FFFSF"), (100, "p100:FFFFSF"), (150, "p150:FFFFF"), (1000, "p1000:FFFFFFF"), (3600, "p3600:FFFFFFFFF")] {
             let outcomes = match period {
-                3600 => vec![false; 7],
-                90 => vec![false, false, false, false, true, false],
+                3600 => vec![false; 9],
+                1000 => vec![false; 7],
+                150 => vec![false; 5],
+                100 => vec![false, false, false, false, true, false],
                 _ => vec![false, false, false, true, false],
             };
             let mut end = 0.0;
@@ -747,19 +772,42 @@ pub fn run_c19(cfg: &Cfg) -> i32 {
         scs.push(Sc { period: 300, outcomes: vec![false], signals: vec![(10.0, libc::SIGTERM)], end: 200.0, name: "p300:F+SIGTERM@10" });
     }
     let scs: Vec<Sc> = scs.into_iter().enumerate().filter(|(i, _)| (*i as u64) % cfg.shards == cfg.shard).map(|(_, s)| s).collect();
-    for sc in &scs {
-        let mut k = 120.0;
-        let obs = loop {
-            match run_daemon(k, sc.period, &sc.outcomes, &sc.signals, sc.end) {
-                Err(e) => {
-                    rep.inconclusive(sc.name, &e);
-                    break None;
-                }
-                Ok(o) if o.overshoot_ms > 20.0 && k > 10.0 => {
-                    rep.count("reruns_because_of_timer_jitter");
-                    k = if k > 30.0 { 30.0 } else { 10.0 };
-                }
-                Ok(o) => break Some(o),
+    // run the scenarios 4 at a time (each has its own runtime, fake Junos, fake IRRd and daemon)
+    let mut observed: Vec<(usize, f64, Result<DaemonObs, String>, u64)> = Vec::new();
+    for chunk in (0..scs.len()).collect::<Vec<_>>().chunks(4) {
+        let handles: Vec<_> = chunk
+            .iter()
+            .map(|&i| {
+                let (period, outcomes, signals, end) = (scs[i].period, scs[i].outcomes.clone(), scs[i].signals.clone(), scs[i].end);
+                std::thread::spawn(move || {
+                    let mut k = 120.0;
+                    let mut reruns = 0u64;
+                    loop {
+                        match run_daemon(k, period, &outcomes, &signals, end) {
+                            Ok(o) if o.overshoot_ms > 20.0 && k > 10.0 => {
+                                reruns += 1;
+                                k = if k > 30.0 { 30.0 } else { 10.0 };
+                            }
+                            other => return (i, k, other, reruns),
+                        }
+                    }
+                })
+            })
+            .collect();
+        for h in handles {
+            if let Ok(r) = h.join() {
+                observed.push(r);
+            }
+        }
+    }
+    for (i, k, res, reruns) in observed {
+        let sc = &scs[i];
+        rep.count_n("reruns_because_of_timer_jitter", reruns);
+        let obs = match res {
+            Ok(o) => Some(o),
+            Err(e) => {
+                rep.inconclusive(sc.name, &e);
+                None
             }
         };
         let Some(o) = obs else { continue };
